@@ -4,8 +4,10 @@ EXTENDS Loop, Json
    Exhaustive configs hide `hist` with VIEW View.  Generation configs (Gen_*.cfg, -simulate or exhaustive
    without VIEW) print one JSON line per *completed behaviour*: the iteration counts and everything
    that was put on p3, p4, p8[x], p6[x] in order, with the number of tokens the producing step had
-   consumed when it put (field n) - the driver replays these arrival orders on the real steps.   *)
-FinalJ == [N |-> N, scatter |-> Scatter, p3 |-> hist.p3, p4 |-> hist.p4, p8 |-> hist.p8, p6 |-> hist.p6]
+   consumed when it put (field n) - the driver replays these arrival orders on the real steps; chk[n] is
+   LC's checklist after the n-th token it consumed (compared with iteration_termination_checklist).   *)
+FinalJ == [N |-> N, scatter |-> Scatter, idx |-> Idx, p3 |-> hist.p3, p4 |-> hist.p4, p8 |-> hist.p8, p6 |-> hist.p6,
+           chk |-> hist.chk]
 GenEmit == AllDone => PrintT(ToJson(FinalJ))
 \* no Finished: a generated behaviour ends (no successor) when every step has terminated
 GenNext == \/ InFwdPut \/ InFwdTerm \/ LCStep \/ CDTrue \/ CDFalse \/ CDTerm
